@@ -38,6 +38,7 @@ verus! {
 pub fn fmt_opaque() -> String { String::new() }
 
 pub use core::cmp::Ordering;
+pub use core::fmt;
 pub type SMap<K, V> = vstd::map::Map<K, V>;
 pub type Raw = vstd::map::Map<Seq<u8>, Seq<u8>>;
 
@@ -72,6 +73,11 @@ pub assume_specification<T: PartialEq> [ <[T]>::contains ] (s: &[T], x: &T) -> (
 
 pub assume_specification<T, E> [ Option::<Result<T, E>>::transpose ] (o: Option<Result<T, E>>) -> (r: Result<Option<T>, E>)
     ensures r == (match o { None => Ok::<Option<T>, E>(None), Some(Ok(x)) => Ok(Some(x)), Some(Err(e)) => Err(e) });
+
+pub assume_specification<T, P: FnOnce(&T) -> bool> [ Option::<T>::filter ] (o: Option<T>, p: P) -> (r: Option<T>)
+    requires o is Some ==> p.requires((&o->Some_0,))
+    ensures r == (match o { Some(x) => if p.ensures((&x,), true) { Some(x) } else { None::<T> }, None => None::<T> }),
+        o is Some ==> p.ensures((&o->Some_0,), true) || p.ensures((&o->Some_0,), false);
 
 // str helpers whose results no contract depends on (uninterpreted results)
 pub assume_specification [ str::trim ] (s: &str) -> (r: &str);
@@ -252,6 +258,17 @@ pub broadcast axiom fn ax_opt_id_obeys<T>() ensures #[trigger] <Option<T> as Fro
 pub broadcast axiom fn ax_opt_id<T>(t: Option<T>) ensures #[trigger] <Option<T> as FromSpec<Option<T>>>::from_spec(t) == t;
 pub broadcast group opt_conv { ax_opt_from_obeys, ax_opt_from, ax_opt_id_obeys, ax_opt_id, ax_string_to_string }
 
+/// E16: shim stand-in for the bound `AsRef<str>` (Verus cannot give `core::convert::AsRef` a specification here);
+/// implemented for exactly the argument types the repository passes: &str, &String, String, &Addr, Addr
+pub trait AsRefStr {
+    spec fn str_view(&self) -> Seq<char>;
+    fn as_ref(&self) -> (r: &str) ensures r@ == self.str_view();
+}
+impl<'a> AsRefStr for &'a str { open spec fn str_view(&self) -> Seq<char> { (**self)@ } fn as_ref(&self) -> (r: &str) { *self } }
+impl<'a> AsRefStr for &'a String { open spec fn str_view(&self) -> Seq<char> { (**self)@ } fn as_ref(&self) -> (r: &str) { (*self).as_str() } }
+impl AsRefStr for String { open spec fn str_view(&self) -> Seq<char> { self@ } fn as_ref(&self) -> (r: &str) { self.as_str() } }
+impl<'a> AsRefStr for &'a Addr { open spec fn str_view(&self) -> Seq<char> { (**self)@ } fn as_ref(&self) -> (r: &str) { (*self).as_str() } }
+
 pub struct Binary(pub Vec<u8>);
 impl View for Binary { type V = Seq<u8>; open spec fn view(&self) -> Seq<u8> { self.0@ } }
 impl Clone for Binary { #[verifier::external_body] fn clone(&self) -> (r: Self) ensures r == *self { unimplemented!() } }
@@ -281,6 +298,10 @@ impl PartialEq for Coin { #[verifier::external_body] fn eq(&self, o: &Coin) -> (
 pub fn coin(amount: u128, denom: impl Into<String>) -> (r: Coin) { unimplemented!() }
 pub struct MessageInfo { pub sender: Addr, pub funds: Vec<Coin> }
 pub struct Empty {}
+impl Clone for Empty { fn clone(&self) -> (r: Self) ensures r == *self { Empty {} } }
+impl PartialEqSpecImpl for Empty { open spec fn obeys_eq_spec() -> bool { true } open spec fn eq_spec(&self, o: &Empty) -> bool { true } }
+impl PartialEq for Empty { fn eq(&self, o: &Empty) -> (r: bool) { true } }
+impl core::fmt::Debug for Empty { #[verifier::external_body] fn fmt(&self, f: &mut core::fmt::Formatter<'_>) -> core::fmt::Result { unimplemented!() } }
 pub trait JsonSchema {}
 impl JsonSchema for Empty {}
 pub trait CustomMsg {}
@@ -435,6 +456,9 @@ impl<K: KeyT, V: SerT> Map<K, V> {
                     && (old(store).view().contains_key(self.rawkey(k)) ==> self.get(old(store).view(), k) is Some)
                     && final(store).view() == old(store).view().insert(self.rawkey(k), r->Ok_0.ser()),
             r is Err ==> final(store).view() == old(store).view(),
+            // an error is either a value that does not parse or the action's own error
+            r is Err ==> (old(store).view().contains_key(self.rawkey(k)) && self.get(old(store).view(), k) is None)
+                    || action.ensures((self.get(old(store).view(), k),), r),
     { unimplemented!() }
 }
 
